@@ -41,7 +41,68 @@ def plan(tier, seed):
     specs += [{"mode": "runs", "shard": i, "nshards": 8} for i in range(8)]
     specs += pipework.plan_programs(tier, seed, "C05", nshards=16 if q else 48, per_shard=8 if q else 120)
     specs += [{"mode": "cli", "seed": seed, "shard": i, "n": 10 if q else 120} for i in range(4)]
+    specs += [{"mode": "tokseq", "seed": seed, "shard": i, "nshards": 8, "maxlen": 2 if q else 3,
+               "sample": 900 if q else 20000} for i in range(8)]
+    specs += [{"mode": "directives", "shard": i, "nshards": 4} for i in range(4)]
     return specs
+
+
+# ------------------------------------------------------------------ systematic small grammars
+
+TOKS = ["int", "a", "1", "\"s\"", "'c'", "(", ")", "{", "}", "[", "]", ";", ",", "=", "+", "*", "->", ".", ":", "?", "#",
+        "include", "define", "if", "while", "return", "struct", "typedef", "<", ">", "\n", "else", "sizeof", "static"]
+DIRECTIVES = ["include", "import", "define", "undef", "if", "ifdef", "ifndef", "elif", "else", "endif", "pragma", "error",
+              "warning", "line", "foo", ""]
+DIR_ARGS = ["", "NAME", "name", "42", "\"file.h\"", "<file.h>", "<file.h", "file.h>", "\"file.h", "(", ")", "(1 +", "1 +", "+",
+            "defined", "defined(", "defined(X)", "!defined X", "X Y", "X(a, b) a", "X(", "X(a", "X ##", "\\", "// c", "/* c",
+            "NAME NAME NAME", "1 ? 2 : 3", "1 ? 2", "(((((1)))))", "0x", "'", "\"", "@"]
+DIR_TAILS = ["", "\n", "\nint\tf(void)\n{\n\treturn (0);\n}\n", "\n#endif\n"]
+
+
+def tokseq_cases(spec):
+    import itertools
+    k = 0
+    for L in range(1, spec["maxlen"] + 1):
+        for seq in itertools.product(TOKS, repeat=L):
+            k += 1
+            if k % spec["nshards"] == spec["shard"]:
+                yield seq
+    r = random.Random("tokseq/%s/%d" % (spec["seed"], spec["shard"]))
+    for _ in range(spec["sample"]):
+        yield tuple(r.choice(TOKS) for _ in range(r.randint(3, 6)))
+
+
+def run_tokseq(spec):
+    sh = Shard(max_per_sig=3)
+    for seq in tokseq_cases(spec):
+        line = " ".join(seq)
+        for name, src, ctx in (("t.c", line + "\n", "file"), ("t.c", line, "file_no_nl"),
+                               ("t.h", line + "\n", "header"),
+                               ("t.c", "int\tf(void)\n{\n\t" + line + "\n}\n", "body"),
+                               ("t.c", "int\tf(void)\n{\n\t" + line, "body_open")):
+            judge(sh, name, src, {"tokens": list(seq), "context": ctx}, "tokseq")
+    sh.sample({"token_sequences": "all sequences up to length %d over %d token spellings + %d sampled of length 3-6, in 5 contexts" % (
+        spec["maxlen"], len(TOKS), spec["sample"])})
+    return sh
+
+
+def run_directives(spec):
+    sh = Shard(max_per_sig=3)
+    k = 0
+    for d in DIRECTIVES:
+        for a in DIR_ARGS:
+            for tail in DIR_TAILS:
+                for lead in ("#", "# ", "#\t", "  #"):
+                    k += 1
+                    if k % spec["nshards"] != spec["shard"]:
+                        continue
+                    src = lead + d + (" " + a if a else "") + tail
+                    for name in ("t.c", "t.h"):
+                        judge(sh, name, src, {"directive": d, "arg": a}, "directive")
+                        judge(sh, name, "#ifndef T_H\n# define T_H\n" + src, {"directive": d, "arg": a}, "directive")
+    sh.sample({"directive_grid": "%d directives x %d arguments x %d tails x 4 leads x 2 file types x 2 contexts" % (
+        len(DIRECTIVES), len(DIR_ARGS), len(DIR_TAILS))})
+    return sh
 
 
 # ------------------------------------------------------------------ pipeline
@@ -216,6 +277,10 @@ def run_shard(spec):
         return run_programs(spec).result()
     if spec["mode"] == "cli":
         return run_cli_cases(spec).result()
+    if spec["mode"] == "tokseq":
+        return run_tokseq(spec).result()
+    if spec["mode"] == "directives":
+        return run_directives(spec).result()
     sh = lexpass.run_pass(spec, kinds=set(), exc_is_violation=True, clock=True,
                           nontrivial=lambda s, src: s.asserts.get("lex.progress", 0) > 0 or len(s.diags) > 0)
     sh.count("lexer.total", sh.evaluations)
